@@ -82,7 +82,8 @@ def gen_cases(rng, tier):
 
     # ---------------- conv1d, all-int form
     grid = list(conv1d_grid())
-    sel = rng.sample(grid, 1500) if quick else grid
+    # quick: batch 2 in ~1/8 of the sample (batch>1 currently dies in index::conv_reshape_input; see findings/c17_conv_batch.md)
+    sel = (rng.sample([t for t in grid if t[0] == 1], 1300) + rng.sample([t for t in grid if t[0] == 2], 200)) if quick else grid
     for (N, C, g, O, L, k, s, p, d) in sel:
         for bias in ((rng.randint(0, 1),) if quick else (0, 1)):
             dt = pick("iifd")
@@ -95,6 +96,8 @@ def gen_cases(rng, tier):
     for _ in range(250 if quick else 3000):
         form = rng.randint(0, 4)
         (N, C, g, O, L, k, s, p, d) = rng.choice(grid)
+        if quick and rng.random() < 0.75:
+            N = 1
         if form != 4:
             g = 1
             O = rng.randint(1, 3)
@@ -102,7 +105,7 @@ def gen_cases(rng, tier):
         if M.conv_out_size(L, k, s_, p_, d_) <= 0:
             continue
         bias = 1 if form == 4 else (rng.randint(0, 1) if form == 0 else 0)
-        dt = pick("ffd")
+        dt = "f"
         xs, ws = [N, C, L], [O, C // g_, k]
         x, w = ints(rng, size(xs)), ints(rng, size(ws))
         b = ints(rng, O, -5, 5) if bias else None
@@ -111,7 +114,7 @@ def gen_cases(rng, tier):
 
     # ---------------- conv2d
     def conv2d_draw(pairs):
-        N = rng.randint(1, 2)
+        N = (2 if rng.random() < 0.125 else 1) if quick else rng.randint(1, 2)
         C = rng.randint(1, 4)
         g = rng.choice(divisors(C))
         O = rng.choice([o for o in (g, 2 * g) if o <= 4 or o == g])
@@ -138,6 +141,24 @@ def gen_cases(rng, tier):
         b = ints(rng, O, -5, 5) if bias else None
         args = "%s %s %s %d%s %d %d %d %d" % (dt, fmt_operand(xs, x), fmt_operand(ws, w), bias, (" " + fmt_operand([O], b)) if bias else "", s[0], p[0], d[0], g)
         cases.append(dict(op="nn_conv2d", args=args, dtype=dt, xs=xs, x=x, ws=ws, w=w, b=b, stride=s, padding=p, dilation=d, groups=g, form="int"))
+    # deterministic part: a dilation pair with different entries, every per-axis geometry on each axis in turn
+    # (the symptom of a mix-up of the two entries depends on the geometry only, so the key set does not depend on the seed)
+    for role in (0, 1):
+        for L in range(1, 8):
+            for k in range(1, 4):
+                for s1 in (1, 2):
+                    for p1 in (0, 1):
+                        for (d_own, d_other) in ((1, 2), (2, 1)):
+                            if M.conv_out_size(L, k, s1, p1, d_own) <= 0:
+                                continue
+                            geo = [(L, k, s1, p1, d_own), (5, 2, 1, 0, d_other)]
+                            if role == 1:
+                                geo.reverse()
+                            xs, ws = [1, 1, geo[0][0], geo[1][0]], [1, 1, geo[0][1], geo[1][1]]
+                            x, w = ints(rng, size(xs)), ints(rng, size(ws))
+                            s, p, d = [geo[0][2], geo[1][2]], [geo[0][3], geo[1][3]], [geo[0][4], geo[1][4]]
+                            args = "f %s %s 0 %d %d %d %d %d %d 1" % (fmt_operand(xs, x), fmt_operand(ws, w), s[0], s[1], p[0], p[1], d[0], d[1])
+                            cases.append(dict(op="nn_conv2d_list", args=args, dtype="f", xs=xs, x=x, ws=ws, w=w, b=None, stride=s, padding=p, dilation=d, groups=1, form="pairs"))
     n2 = 0
     want = 350 if quick else 10000
     while n2 < want:
@@ -146,7 +167,7 @@ def gen_cases(rng, tier):
             continue
         n2 += 1
         bias = rng.randint(0, 1)
-        dt = pick("ffd")
+        dt = "f"
         xs, ws = [N, C, H, W], [O, C // g, kh, kw]
         x, w = ints(rng, size(xs)), ints(rng, size(ws))
         b = ints(rng, O, -5, 5) if bias else None
@@ -168,7 +189,7 @@ def gen_cases(rng, tier):
             continue
         n2 += 1
         bias = 1 if form == 4 else (rng.randint(0, 1) if form == 0 else 0)
-        dt = pick("ffd")
+        dt = "f"
         xs, ws = [N, C, H, W], [O, C // g_, kh, kw]
         x, w = ints(rng, size(xs)), ints(rng, size(ws))
         b = ints(rng, O, -5, 5) if bias else None
@@ -193,9 +214,18 @@ def gen_cases(rng, tier):
                 lead = [1, 1]
             xs = list(lead) + list(hw)
             dt = pick("iifd")
-            x = labels(rng, size(xs)) if op == "nn_max_pool2d" else ints(rng, size(xs), -8, 8)
+            if op == "nn_max_pool2d":
+                x = labels(rng, size(xs))
+                if rng.random() < 0.6:
+                    x = [v - min(x) for v in x]     # non-negative labels
+            else:
+                x = ints(rng, size(xs), -8, 8)
             args = "%s %s %d %d %d %d %d" % (dt, fmt_operand(xs, x), kk[0], kk[1], ss[0], ss[1], c)
-            cases.append(dict(op=op, args=args, dtype=dt, xs=xs, x=x, kernel=list(kk), stride=list(ss), ceil=c))
+            mm = dict(op=op, args=args, dtype=dt, xs=xs, x=x, kernel=list(kk), stride=list(ss), ceil=c)
+            if op == "nn_max_pool2d":
+                e = expected(mm)
+                mm["negmax"] = bool(e is not None and np.any(e < 0))
+            cases.append(mm)
 
     # ---------------- softmax / softmin
     shapes = [[n] for n in range(1, 6)] + [list(s) for s in itertools.product(range(1, 5), repeat=2)] + \
@@ -226,10 +256,13 @@ def gen_cases(rng, tier):
         args = "%s %s %s %s %s %s %r %d" % (dt, fmt_foperand(xs, x), fmt_foperand([C], mean), fmt_foperand([C], var), fmt_foperand([C], w), fmt_foperand([C], b), eps, dflt)
         cases.append(dict(op="nn_batch_norm", args=args, dtype=dt, xs=xs, x=x, mean=mean, var=var, w=w, b=b, eps=eps, dflt=dflt))
     for _ in range(200 if quick else 4000):
-        d = rng.randint(2, 4)
-        xs = [rng.randint(1, 4) for _ in range(d)]
-        k = rng.randint(1, d)
-        ns = xs[d - k:]
+        while True:
+            d = rng.randint(2, 4)
+            xs = [rng.randint(1, 4) for _ in range(d)]
+            k = rng.randint(1, d)
+            ns = xs[d - k:]
+            if size(xs) * size(ns) ** 2 <= 6000:
+                break
         dt = pick("fd")
         dflt = 1 if (dt == "f" and rng.random() < 0.3) else 0
         eps = 1e-5 if dflt else eps_pick()
@@ -237,8 +270,11 @@ def gen_cases(rng, tier):
         args = "%s %s %s %s %r %d" % (dt, fmt_foperand(xs, x), fmt_foperand(ns, w), fmt_foperand(ns, b), eps, dflt)
         cases.append(dict(op="nn_layer_norm", args=args, dtype=dt, xs=xs, x=x, ns=ns, w=w, b=b, eps=eps, dflt=dflt))
     for _ in range(150 if quick else 3000):
-        nd = rng.randint(1, 2)
-        xs = [rng.randint(1, 3), rng.randint(1, 4)] + [rng.randint(1, 4) for _ in range(nd)]
+        while True:
+            nd = rng.randint(1, 2)
+            xs = [rng.randint(1, 3), rng.randint(1, 4)] + [rng.randint(1, 4) for _ in range(nd)]
+            if size(xs) * size(xs[2:]) ** 2 <= 6000:
+                break
         C = xs[1]
         dt = pick("fd")
         eps = eps_pick()
@@ -246,10 +282,13 @@ def gen_cases(rng, tier):
         args = "%d %s %s %s %s %r" % (nd, dt, fmt_foperand(xs, x), fmt_foperand([C], w), fmt_foperand([C], b), eps)
         cases.append(dict(op="nn_instance_norm", args=args, dtype=dt, xs=xs, x=x, w=w, b=b, eps=eps, nd=nd))
     for _ in range(200 if quick else 4000):
-        nsp = rng.randint(1, 2)
-        C = rng.randint(1, 6)
-        G = rng.choice(divisors(C))
-        xs = [rng.randint(1, 3), C] + [rng.randint(1, 3) for _ in range(nsp)]
+        while True:
+            nsp = rng.randint(1, 2)
+            C = rng.randint(1, 6)
+            G = rng.choice(divisors(C))
+            xs = [rng.randint(1, 3), C] + [rng.randint(1, 3) for _ in range(nsp)]
+            if size(xs) * (size(xs[2:]) * C // G) ** 2 <= 6000:
+                break
         dt = pick("fd")
         eps = eps_pick()
         x, w, b = eighths(rng, size(xs)), eighths(rng, C, -8, 8, 4.0), eighths(rng, C, -8, 8, 4.0)
@@ -276,7 +315,7 @@ def gen_cases(rng, tier):
         I, J, O = rng.randint(1, 4), rng.randint(1, 4), rng.randint(1, 3)
         as_, bs, ws = lead + [I], lead + [J], [O, I, J]
         bias = rng.randint(0, 1)
-        dt = pick("iifd")
+        dt = pick("if")
         a, b2, w = ints(rng, size(as_)), ints(rng, size(bs)), ints(rng, size(ws))
         b = ints(rng, O, -9, 9) if bias else None
         args = "%s %s %s %s %d%s" % (dt, fmt_operand(as_, a), fmt_operand(bs, b2), fmt_operand(ws, w), bias, (" " + fmt_operand([O], b)) if bias else "")
@@ -363,16 +402,36 @@ def expected(m, fast=True):
 def argclass(m):
     op = m["op"]
     if op.startswith("nn_conv"):
-        def nd(v, dflt):
-            return any(int(t) != dflt for t in (v if isinstance(v, list) else [v]))
-        feats = "".join(c for c, on in (("b", m["b"] is not None), ("d", nd(m["dilation"], 1)), ("g", m["groups"] > 1), ("p", nd(m["padding"], 0)), ("s", nd(m["stride"], 1))) if on)
+        # partition: batch>1 | several output channels per group and/or per-axis dilation pair with different entries |
+        # everything else by the set of non-default features
+        if m["xs"][0] > 1:
+            return "%s:batch_gt1" % m["form"]
+
+        def lst(v):
+            return [int(t) for t in (v if isinstance(v, list) else [v])]
+        special = []
+        if m["groups"] > 1 and m["ws"][0] // m["groups"] > 1:
+            special.append("groups_multi_out")
+        if len(set(lst(m["dilation"]))) > 1:
+            special.append("dilation_pair_differs")
+        if special:
+            return "%s:%s" % (m["form"], "+".join(special))
+        feats = "".join(c for c, on in (("b", m["b"] is not None), ("d", any(t != 1 for t in lst(m["dilation"]))), ("g", m["groups"] > 1),
+                                        ("p", any(t != 0 for t in lst(m["padding"]))), ("s", any(t != 1 for t in lst(m["stride"])))) if on)
         return "%s:%s" % (m["form"], feats or "plain")
     if op in ("nn_max_pool2d", "nn_avg_pool2d"):
         k, s = m["kernel"], m["stride"]
         H, W = m["xs"][-2:]
-        gap = s[0] > k[0] or s[1] > k[1]
+
+        def outside(L, kk, ss):
+            # ceil mode would place the start of the last window at or beyond the end of the input (PyTorch drops that window)
+            return bool(m["ceil"]) and (-((L - kk) // -ss)) * ss >= L
+        if outside(H, k[0], s[0]) or outside(W, k[1], s[1]):
+            return "ceil:last_window_outside"
+        if op == "nn_max_pool2d" and m.get("negmax"):
+            return "negative_window_max"
         over = bool(m["ceil"]) and ((H - k[0]) % s[0] != 0 or (W - k[1]) % s[1] != 0)
-        return "%s:%s:%s" % ("ceil" if m["ceil"] else "floor", "stride_gt_kernel" if gap else "stride_le_kernel", "overhang" if over else "fit")
+        return "%s:%s" % ("ceil" if m["ceil"] else "floor", "overhang" if over else "fit")
     if op in ("nn_softmax", "nn_softmin"):
         return "dim%d:%s" % (len(m["xs"]), "negaxis" if m["axis"] < 0 else "posaxis")
     if op in ("nn_batch_norm", "nn_layer_norm"):
@@ -445,7 +504,7 @@ def oracle(ctx, cr):
     ac = argclass(m)
     det = dict(case=describe(m), line=cr.line[:800])
     if cr.crash is not None:
-        ctx.violation("%s:%s:crash:%s" % (op, ac, cr.crash.kind()), "%s %s died: %s" % (op, det["case"], cr.crash.kind()), dict(det, stderr=cr.crash.stderr[-3000:]))
+        ctx.violation("%s:%s:fault" % (op, ac), "%s %s died: %s" % (op, det["case"], cr.crash.kind()), dict(det, stderr=cr.crash.stderr[-3000:]))
         return
     if cr.timeout:
         ctx.inconc("timeout in %s" % cr.line[:200])
@@ -458,7 +517,7 @@ def oracle(ctx, cr):
         if not err.startswith("EXC"):
             ctx.violation("%s:harness_error" % op, err[:300], det)
         else:
-            ctx.violation("%s:%s:exception" % (op, ac), "%s %s threw while the result was read: %s" % (op, det["case"], err[-160:]), det)
+            ctx.violation("%s:%s:fault" % (op, ac), "%s %s threw while the result was read: %s" % (op, det["case"], err[-160:]), det)
         return
     exp = expected(m, fast=True)
     if exp is None:
@@ -469,12 +528,14 @@ def oracle(ctx, cr):
     else:
         why = compare_tol(cr.rec, exp, RTOL[dt], FLOOR.get(op, 0.0))
     if why:
-        sym = "nothing" if "Nothing" in why else ("shape" if why.startswith("shape") or "0-dim" in why else "element")
-        if sym == "element" and op not in EXACT_OPS and compare_tol(cr.rec, exp, 1e-4, FLOOR.get(op, 0.0)) is None:
+        if why.startswith("element") and op not in EXACT_OPS and compare_tol(cr.rec, exp, 1e-4, FLOOR.get(op, 0.0)) is None:
             # right value, computed with less precision than the element type promises: one cause, one key
             ctx.violation("%s:%s:precision" % (op, dt), "%s %s: %s" % (op, det["case"], why), det)
+        elif op in EXACT_OPS:
+            # integer-valued data: the element type plays no role
+            ctx.violation("%s:%s:value" % (op, ac), "%s %s: %s" % (op, det["case"], why), det)
         else:
-            ctx.violation("%s:%s:%s:%s" % (op, dt, ac, sym), "%s %s: %s" % (op, det["case"], why), det)
+            ctx.violation("%s:%s:%s:value" % (op, dt, ac), "%s %s: %s" % (op, det["case"], why), det)
     if exp.size > 1:
         ctx.seen((op, ac, str(det["case"])))
     if exp.size > 3 and len(ctx.samples) < 8 and ctx.rng.random() < 0.004:
@@ -518,7 +579,7 @@ def run(ctx):
     per_op = {}
     for cr in res:
         for (site, f0, f1) in V.hook_problems(cr, acc):
-            ctx.violation("%s:%s:hook" % (cr.m["op"], argclass(cr.m) if "dtype" in cr.m else "-"), "bounds hook %s: index %d outside bound %d in %s" % (site, f0, f1, cr.line[:300]), dict(line=cr.line[:800], site=site))
+            ctx.violation("%s:%s:fault" % (cr.m["op"], argclass(cr.m) if "dtype" in cr.m else "-"), "bounds hook %s: index %d outside bound %d in %s" % (site, f0, f1, cr.line[:300]), dict(line=cr.line[:800], site=site))
         if "dtype" not in cr.m:
             ctx.violation("%s:crash_outside_case:%s" % (cr.m.get("src", "?"), cr.crash.kind()), "runner died outside a case: %s" % cr.crash.kind(), dict(stderr=cr.crash.stderr[-3000:]))
             continue
